@@ -2,17 +2,15 @@ const { getSourcePathAndLineFromSourceMaps } = require('../source-map')
 
 const kSymbolPrepareStackTrace = Symbol('_ddiastPrepareStackTrace')
 
-// "eval at <function> (<file>:<line>:<column>)": the position of the eval call, translated like any other
+// "eval at <function> (<file>:<line>:<column>)": the position of the eval call, translated like any other.
+// The text may go on behind it ("..., <anonymous>:1:20)" when a whole call site is printed).
 function translateEvalOrigin (evalOrigin) {
   if (typeof evalOrigin !== 'string') return evalOrigin
-  const evalData = /.*\(((?:.:[/\\]?)?[/\\].*):(\d*):(\d*)\)/.exec(evalOrigin)
-  if (!evalData) return evalOrigin
-  const [, filename, evalLine, evalColumn] = evalData
-  const { path, line, column } = getSourcePathAndLineFromSourceMaps(filename, evalLine, evalColumn)
-  if (path !== filename || line !== evalLine || column !== evalColumn) {
-    return evalOrigin.replace(`${filename}:${evalLine}:${evalColumn}`, () => `${path}:${line}:${column}`)
-  }
-  return evalOrigin
+  return evalOrigin.replace(/(eval at [^(]*\()((?:.:[/\\]?)?[/\\][^():]*):(\d+):(\d+)(\))/,
+    (match, before, filename, evalLine, evalColumn, after) => {
+      const { path, line, column } = getSourcePathAndLineFromSourceMaps(filename, evalLine, evalColumn)
+      return `${before}${path}:${line}:${column}${after}`
+    })
 }
 
 class WrappedCallSite {
@@ -112,12 +110,21 @@ class WrappedCallSite {
     return this.callSite.getPosition()
   }
 
+  // the text V8 prints for the call site, with the position (or the eval origin) translated
   toString () {
-    return this.callSite.toString()
+    const text = translateEvalOrigin(this.callSite.toString())
+    const filename = this.callSite.getFileName()
+    const line = this.callSite.getLineNumber()
+    const column = this.callSite.getColumnNumber()
+    if (typeof text === 'string' && filename &&
+      (this.source !== filename || this.lineNumber !== line || this.columnNumber !== column)) {
+      return text.replace(`${filename}:${line}:${column}`, () => `${this.source}:${this.lineNumber}:${this.columnNumber}`)
+    }
+    return text
   }
 
   toLocaleString () {
-    return this.callSite.toLocaleString()
+    return this.toString()
   }
 }
 
